@@ -277,7 +277,8 @@ Inductive step : Type :=
 | SWrite (d : bytes) (flush : bool)
 | SCloseStream
 | SCloseFile
-| SReply.
+| SReply
+| SObserve.    (* some session stats / lists the path (MLST, MLSD, LIST): it is told length v_visible; observing changes nothing *)
 
 Record vstate : Type := mkV {
   v_handle : handle;            (* the worker's own view *)
@@ -300,7 +301,14 @@ Definition v_step (v : vstate) (s : step) : vstate :=
   | SCloseStream => v
   | SCloseFile => mkV (v_handle v) (h_content (v_handle v)) false (v_at_reply v)
   | SReply => mkV (v_handle v) (v_visible v) (v_file_open v) (Some (v_visible v, v_file_open v))
+  | SObserve => v
   end.
+
+(* the size a stat / listing reports: the size of what every opener sees *)
+Definition observed_size (v : vstate) : nat := length (v_visible v).
+
+Definition is_observe (s : step) : bool := match s with SObserve => true | _ => false end.
+Definition strip_observe (l : list step) : list step := filter (fun s => negb (is_observe s)) l.
 
 Definition v_run (old : bytes) (script : list step) : vstate := fold_left v_step script (v_init old).
 
@@ -443,6 +451,11 @@ Definition check_xfer_shapes (f : xfer_facts) : bool :=
         "if cmd in ('retr', 'stor', 'appe'): conn.transfer_offset = conn.restart_offset";
         "conn.restart_offset = 0"]
   && list_string_eqb (xf_offset_init f) ["restart_offset=0"; "transfer_offset=0"]
+  (* the builders of MLST / MLSD / LIST answers keep no state of their own: the only attributes of the
+     server object they touch are these helpers (a per-server cache of answers would show up here) *)
+  && list_string_eqb (xf_observer_state f)
+       ["_build_mlsx_facts_from_stats"; "_format_mlsx_time"; "build_list_mtime"; "build_list_string";
+        "build_mlsx_string"; "encoding"; "get_paths"]
   && list_string_eqb (xf_backend_wiring f)
        ["self.path_io_factory = pathio.PathIONursery(path_io_factory)";
         "connection.path_io = self.path_io_factory(**kw)"]
